@@ -644,13 +644,14 @@ Definition sample_tree : el :=
 Lemma c32_nonvacuous_lemma :
   tree_ok 0 sample_tree = true /\
   attrs_ok (el_attrs sample_tree) = true /\
-  find_tags_ok sample_tree = true /\
+  find_tags_ok 47 sample_tree = true /\
   print_el sample_tree =
     bs "<cfg name=""x&quot;y&apos;z&gt;&amp;"" v.1=""&amp;l; &amp;#; &amp;lt""> a&lt;b &amp; c&gt; <item id=""1""/><ns:other>&apos;</ns:other><item id=""2"">t<leaf-1/><item/></item></cfg>" /\
   parse_doc (print_el sample_tree) = Ok sample_tree /\
-  find_all (find_fuel (bs "cfg/item")) sample_tree sample_tree [] (bs "cfg/item") None = [[0%nat]; [2%nat]] /\
-  find_all (find_fuel (bs "//cfg/item/item")) sample_tree sample_tree [] (bs "//cfg/item/item") None = [[2%nat; 1%nat]] /\
-  find_first (find_fuel (bs "cfg/item")) sample_tree sample_tree [] (bs "cfg/item") (Some (bs "id", bs "2")) = Some [2%nat].
+  find_all (find_fuel (bs "cfg/item")) sample_tree sample_tree [] (bs "cfg/item") 47 (None, None) = [[0%nat]; [2%nat]] /\
+  find_all (find_fuel (bs "//cfg/item/item")) sample_tree sample_tree [] (bs "//cfg/item/item") 47 (None, None) = [[2%nat; 1%nat]] /\
+  find_first (find_fuel (bs "cfg/item")) sample_tree sample_tree [] (bs "cfg/item") 47 (Some (bs "id"), Some (bs "2")) = Some [2%nat] /\
+  find_all (find_fuel (bs "cfg/item")) sample_tree sample_tree [] (bs "cfg/item") 47 (Some (bs "id"), Some (bs "")) = [].
 Proof. vm_compute. repeat split. Qed.
 
 (* the other two hypotheses of tree_ok are needed as well *)
@@ -662,3 +663,23 @@ Lemma c32_docpath_refuted_lemma :
   parse_doc (print_el (El (bs "a") None None [(bs "docpath", bs "x"); (bs "e", bs "1")] [])) =
   Ok (El (bs "a") None None [(bs "e", bs "1")] []).
 Proof. vm_compute. reflexivity. Qed.
+
+(* the trees of c32_tree_partial are trees of c32_find_exact (delimiter '/') *)
+Lemma tree_ok_find_tags : forall t d, tree_ok d t = true -> find_tags_ok 47 t = true.
+Proof.
+  induction t as [tag dc v a kids IHK] using el_ind_nested. intros d H.
+  destruct (tree_ok_unfold _ _ _ _ _ _ H) as (TG & _ & _ & _ & _ & KD).
+  destruct (tag_ok_facts tag TG) as (TNE & TNM & _ & TEMP).
+  cbn [find_tags_ok]. rewrite TEMP. cbn [negb andb].
+  assert (NS : mem_byte 47 tag = false).
+  { clear - TNM. induction tag as [|c tag IH]; auto.
+    simpl in TNM. apply andb_true_iff in TNM. destruct TNM as [C T].
+    name_facts c C. cbn [mem_byte]. rewrite (N.eqb_sym 47 c). rw_false. apply IH. exact T. }
+  rewrite NS. cbn [negb andb].
+  assert (NR : starts_with [47; 47] tag = false).
+  { destruct tag as [|c tag]; [reflexivity|]. cbn [mem_byte] in NS. apply orb_false_iff in NS.
+    destruct NS as [NS _]. cbn [starts_with]. rewrite NS. reflexivity. }
+  rewrite NR. cbn [negb andb].
+  rewrite forallb_forall in *. rewrite Forall_forall in IHK.
+  intros k IN. apply (IHK k IN (S d)). apply KD. exact IN.
+Qed.
